@@ -165,7 +165,13 @@ fn variants(r: &mut Rng, w: &W) -> Vec<(&'static str, &'static str, Vec<u8>)> {
 }
 
 fn suffixes(r: &mut Rng, same: &[u8], another: Vec<u8>) -> Vec<(&'static str, Vec<u8>)> {
-    vec![("1-byte", vec![r.u8()]), ("64-random", r.bytes(64)), ("another-structure", another), ("same-again", same.to_vec())]
+    let mut v = vec![("1-byte", vec![r.u8()]), ("64-random", r.bytes(64)), ("another-structure", another), ("same-again", same.to_vec())];
+    if r.chance(1, 24) {
+        // more than 64 KiB following (length arithmetic in narrower integer types)
+        let n = *r.pick(&[65530usize, 65536, 70000, 131070]);
+        v.push(("64KiB+", r.bytes(n)));
+    }
+    v
 }
 
 pub fn run(ctx: &mut Ctx) {
